@@ -12,6 +12,8 @@ import (
 	"encoding/json"
 	"errors"
 	"fmt"
+	"os"
+	"path/filepath"
 	"sort"
 	"strings"
 	"sync"
@@ -97,6 +99,7 @@ type Step struct {
 	Kind    string                `json:"kind"`
 	Epoch   uint64                `json:"epoch"`
 	Idxs    []uint64              `json:"idxs"`
+	Hold    string                `json:"hold"`
 }
 
 // Scenario is a scenario.
@@ -193,6 +196,35 @@ func (u *Universe) NameOf(account e2wtypes.Account) Name {
 	return Name{W: "?", A: []string{text}}
 }
 
+// ShowOnly makes a filesystem store at dir offer exactly these accounts of the universe: the files of the
+// other accounts are renamed to something the store does not take for an account (and back).
+func (u *Universe) ShowOnly(dir string, offer []Name) error {
+	show := map[string]bool{}
+	for _, n := range offer {
+		if _, ok := u.byText[n.Text()]; !ok {
+			return fmt.Errorf("offer of unknown account %s", n.Text())
+		}
+		show[n.Text()] = true
+	}
+	for text, acc := range u.Accounts {
+		n := u.byText[text]
+		path := filepath.Join(dir, u.Wallets[n.W].ID().String(), acc.ID().String())
+		hidden := path + ".hidden"
+		_, errShown := os.Stat(path)
+		switch {
+		case show[text] && errShown != nil:
+			if err := os.Rename(hidden, path); err != nil {
+				return err
+			}
+		case !show[text] && errShown == nil:
+			if err := os.Rename(path, hidden); err != nil {
+				return err
+			}
+		}
+	}
+	return nil
+}
+
 // Keys are the public keys of every account of the universe.
 func (u *Universe) Keys() []phase0.BLSPubKey { return u.keys }
 
@@ -255,7 +287,30 @@ type Node struct {
 	u     *Universe
 	mode  string
 	recs  []Rec
-	Calls int
+	calls int
+	gate  *Gate
+}
+
+// Calls is the number of requests the node has received.
+func (n *Node) Calls() int {
+	n.mu.Lock()
+	defer n.mu.Unlock()
+	return n.calls
+}
+
+// Hold makes the next request wait at the node's door until the returned gate is released.
+func (n *Node) Hold() *Gate {
+	n.mu.Lock()
+	defer n.mu.Unlock()
+	n.gate = NewGate()
+	return n.gate
+}
+
+// Unhold takes back a Hold that no request ran in to.
+func (n *Node) Unhold() {
+	n.mu.Lock()
+	defer n.mu.Unlock()
+	n.gate = nil
 }
 
 // NewNode creates the scripted beacon node.
@@ -273,8 +328,17 @@ func (n *Node) Script(mode string, recs []Rec) {
 // asked for = no filter, as the beacon API defines it), keyed by the validator's index.
 func (n *Node) Validators(_ context.Context, opts *api.ValidatorsOpts) (*api.Response[map[phase0.ValidatorIndex]*apiv1.Validator], error) {
 	n.mu.Lock()
+	gate := n.gate
+	n.gate = nil
+	n.mu.Unlock()
+	if gate != nil {
+		// the refresh job is held here, between its accounts part and its validators part; the node
+		// answers with what it is scripted to answer when it is let go
+		gate.Wait()
+	}
+	n.mu.Lock()
 	defer n.mu.Unlock()
-	n.Calls++
+	n.calls++
 	if n.mode == "err" {
 		return nil, errors.New("scripted beacon node failure")
 	}
@@ -341,45 +405,39 @@ type Manager interface {
 	SyncCommitteeAccountsForEpochByIndex(ctx context.Context, epoch phase0.Epoch, indices []phase0.ValidatorIndex) (map[phase0.ValidatorIndex]e2wtypes.Account, error)
 }
 
-// Query runs one query step on the real manager and emits its trace line.
-func Query(ctx context.Context, t *testing.T, tr *verifsupport.Trace, u *Universe, sc int, st Step, m Manager) {
-	t.Helper()
+// ask runs one query on the real manager.
+func ask(ctx context.Context, st Step, m Manager) (map[phase0.ValidatorIndex]e2wtypes.Account, error) {
 	idxs := make([]phase0.ValidatorIndex, 0, len(st.Idxs))
 	for _, i := range st.Idxs {
 		idxs = append(idxs, phase0.ValidatorIndex(i))
 	}
-	var reply map[phase0.ValidatorIndex]e2wtypes.Account
-	var err error
 	switch st.Kind {
 	case "validating":
-		reply, err = m.ValidatingAccountsForEpoch(ctx, phase0.Epoch(st.Epoch))
+		return m.ValidatingAccountsForEpoch(ctx, phase0.Epoch(st.Epoch))
 	case "sync":
-		reply, err = m.SyncCommitteeAccountsForEpoch(ctx, phase0.Epoch(st.Epoch))
+		return m.SyncCommitteeAccountsForEpoch(ctx, phase0.Epoch(st.Epoch))
 	case "validating_by_index":
-		reply, err = m.ValidatingAccountsForEpochByIndex(ctx, phase0.Epoch(st.Epoch), idxs)
+		return m.ValidatingAccountsForEpochByIndex(ctx, phase0.Epoch(st.Epoch), idxs)
 	case "sync_by_index":
-		reply, err = m.SyncCommitteeAccountsForEpochByIndex(ctx, phase0.Epoch(st.Epoch), idxs)
-	default:
-		t.Fatalf("unknown query kind %q", st.Kind)
+		return m.SyncCommitteeAccountsForEpochByIndex(ctx, phase0.Epoch(st.Epoch), idxs)
 	}
-	ev := verifsupport.Ev{"sc": sc, "ev": "Query", "kind": st.Kind, "epoch": st.Epoch, "idxs": st.Idxs, "ok": err == nil}
-	if st.Idxs == nil {
-		ev["idxs"] = []uint64{}
-	}
-	ev["reply"] = u.Reply(reply)
-	tr.Emit(ev)
+	return nil, fmt.Errorf("unknown query kind %q", st.Kind)
 }
 
-// RefreshEvent builds the trace line of a refresh step (inputs echoed, observed state added).
-func RefreshEvent(sc int, st Step, known []Name, table []Indexed, calls int) verifsupport.Ev {
+// RefreshAEvent builds the trace line of the accounts part of a refresh (inputs echoed, observed state added).
+func RefreshAEvent(sc int, st Step, known []Name) verifsupport.Ev {
 	offer := st.Offer
 	if offer == nil {
 		offer = []Name{}
 	}
+	return verifsupport.Ev{"sc": sc, "ev": "RefreshA", "offer": offer, "known": known}
+}
+
+// RefreshVEvent builds the trace line of the validators part of a refresh.
+func RefreshVEvent(sc int, st Step, table []Indexed, calls int) verifsupport.Ev {
 	recs := st.Recs
 	if recs == nil {
 		recs = []Rec{}
 	}
-	return verifsupport.Ev{"sc": sc, "ev": "Refresh", "offer": offer, "mode": st.Mode, "recs": recs,
-		"known": known, "vals": table, "node_calls": calls}
+	return verifsupport.Ev{"sc": sc, "ev": "RefreshV", "mode": st.Mode, "recs": recs, "vals": table, "node_calls": calls}
 }
